@@ -24,8 +24,8 @@ RULE_TEXT = 'obligations per renderer property, per dispatch path, per renderer 
 ASSUMPTIONS = [
     'decides wiring, dispatch polarity, registry shape, composition shape and purity - not text equality under arbitrary custom renderers',
 ]
-ENGINES = ['pyindex', 'paths', 'effects']
-TECHNIQUE = 'static analysis (ast): path enumeration of the dispatch properties, registry/import-graph reachability, composition-shape and purity rules'
+ENGINES = ['pyindex', 'paths', 'effects', 'specialise']
+TECHNIQUE = 'static analysis (ast): path enumeration of the dispatch properties, registry/import-graph reachability, composition-shape and purity rules; constant-infeasible path pruning on helper-expanded dispatch properties'
 
 LANG = {'sql': 'sql_renderer', 'dbml': 'dbml_renderer'}
 
